@@ -462,7 +462,9 @@ func convToBasicNumber(source interface{}, target reflect.Type) (interface{}, er
 		// integers the decimal itself truncated toward zero: its float64 image may already be the next integer
 		// (0.99999999999999999999) and is exact only up to 2^53
 		f, _ := try2Float64(v).(float64)
-		i, fits := v.Int64()
+		ctx := decimal.Context128
+		ctx.RoundingMode = decimal.ToZero
+		i, fits := ctx.RoundToInt(newDecimalBig().Copy(v)).Int64()
 		// a number that is not finite or lies outside the parameter's integer type cannot be converted
 		intIn := func(lo, hi int64) (int64, error) {
 			if !fits || i < lo || i > hi {
